@@ -220,10 +220,18 @@ func runSigdb(sc M) {
 			case "listappend":
 				ev["t"] = lookupWire(typeGUIDWire, guidWire(sl.SignatureType))
 				ev["badsize"] = ev["t"] == "sha256" && len(dv.bytes) != 32
-				res = errClass(sl.AppendBytes(guidOf(ownerGUIDWire, ow), append([]byte{}, dv.bytes...)))
+				if i%2 == 0 {
+					res = errClass(sl.AppendBytes(guidOf(ownerGUIDWire, ow), append([]byte{}, dv.bytes...)))
+				} else {
+					res = errClass(sl.AppendSignature(signature.SignatureData{Owner: guidOf(ownerGUIDWire, ow), Data: append([]byte{}, dv.bytes...)}))
+				}
 			case "listremove":
 				ev["t"] = lookupWire(typeGUIDWire, guidWire(sl.SignatureType))
-				res = errClass(sl.RemoveBytes(guidOf(ownerGUIDWire, ow), dv.bytes))
+				if i%2 == 0 {
+					res = errClass(sl.RemoveBytes(guidOf(ownerGUIDWire, ow), dv.bytes))
+				} else {
+					res = errClass(sl.RemoveSignature(signature.SignatureData{Owner: guidOf(ownerGUIDWire, ow), Data: dv.bytes}))
+				}
 			case "appendlist":
 				if len(sl.Signatures) > 0 && i%2 == 1 {
 					// the same through AppendDatabase
@@ -264,6 +272,17 @@ func runSigdb(sc M) {
 				}
 				ev["target"] = fieldsOfList(target)
 				res = errClass(db.RemoveList(target))
+			case "listquerydb":
+				// db.Exists(type, list): are all entries of the scratch list in the database?
+				ev["t"] = lookupWire(typeGUIDWire, guidWire(sl.SignatureType))
+				cp, err := signature.ReadSignatureList(bytes.NewReader(sl.Bytes()))
+				if err != nil {
+					cp = sl
+				}
+				res = "false"
+				if db.Exists(sl.SignatureType, cp) {
+					res = "true"
+				}
 			case "listquery":
 				ev["t"] = lookupWire(typeGUIDWire, guidWire(sl.SignatureType))
 				ok1, _ := sl.Exists(&signature.SignatureData{Owner: guidOf(ownerGUIDWire, ow), Data: dv.bytes})
